@@ -6,7 +6,7 @@ CONSTANTS
   R = 3
   B = 2
   MaxStreams = 2
-  CLens = {3,4,5}
+  CLens = {3,4,5,6}
   ULens = {0,1,2,3,4,5}
   Faults = {"none","trunc","corrupt"}
   WChunks = {}
